@@ -186,7 +186,7 @@ func (e *clockEngine) Gen(r *Rand, tier string) any {
 	c.CtxKind = kinds[r.Pick(w)]
 	c.TRO = PickStr(r, []string{"", "", "debugger"})
 	if c.CtxKind != "none" && r.Chance(1, 3) {
-		c.Via = PickStr(r, []string{"fn-other-ctx", "root-ctx"})
+		c.Via = PickStr(r, []string{"fn-other-ctx", "root-ctx", "nested-load", "nested-load"})
 		c.OldCtx = PickStr(r, []string{"background", "cancelled", "deadline-past", "long-deadline"})
 	}
 	c.CeilingNs = []int64{0, 0, -1, 30 * int64(time.Minute), hourNs, 2 * hourNs, 1, int64(time.Second)}[r.Intn(8)]
@@ -314,6 +314,22 @@ func clockProgram(c *ClockCase) string {
 			call += " :max " + durLit(s.MaxNs)
 		}
 		call += ")"
+		if c.Via == "nested-load" {
+			// the sleep sits in a source loaded by load-string / load-bytes from
+			// inside a function body, a let or a lambda (the loaded source is
+			// evaluated in the root environment, under the caller's context)
+			q := LispString(call)
+			switch (i + len(c.Sleeps)) % 4 {
+			case 0:
+				call = "((lambda () (load-string " + q + ")))"
+			case 1:
+				call = "(let ((zz 1)) (load-string " + q + "))"
+			case 2:
+				call = "(flet ((nl (s) (load-bytes (to-bytes s)))) (nl " + q + "))"
+			default:
+				call = "(let* ((zz 1)) (if zz (load-string (concat 'string \"(progn \" " + q + " \")\")) ()))"
+			}
+		}
 		if c.Nested {
 			if i == 0 {
 				nested = call
@@ -322,7 +338,13 @@ func clockProgram(c *ClockCase) string {
 			fmt.Fprintf(&b, "(sim:probe 'before 0)\n(sim:probe 'r 0 %s (handler-bind ((context-cancelled (lambda (c &rest d) (sim:probe 'before 1) (sim:probe 'r 1 %s %s)) c))) %s)))\n", h, h, call, nested)
 			break
 		}
-		fmt.Fprintf(&b, "(set 't0 (time:utc-now))\n(sim:probe 'before %d)\n(sim:probe 'r %d %s %s))\n(set 't1 (time:utc-now))\n", i, i, h, call)
+		if c.Via == "nested-load" {
+			// reached through a lisp function called from the top level: no
+			// builtin or operator of the root environment is on the way
+			fmt.Fprintf(&b, "(defun zrun%d () %s %s))\n(set 't0 (time:utc-now))\n(sim:probe 'before %d)\n(sim:probe 'r %d (zrun%d))\n(set 't1 (time:utc-now))\n", i, h, call, i, i, i)
+		} else {
+			fmt.Fprintf(&b, "(set 't0 (time:utc-now))\n(sim:probe 'before %d)\n(sim:probe 'r %d %s %s))\n(set 't1 (time:utc-now))\n", i, i, h, call)
+		}
 		fmt.Fprintf(&b, "(sim:probe 'clk %d (time:duration-ns (time:time-from t0 t1)) (time:time< t0 t1) (time:time> t0 t1) (time:time= t0 t1) (time:time= (time:time-add t0 (time:time-from t0 t1)) t1) (time:time= (time:parse-rfc3339-nano (time:format-rfc3339-nano t1)) t1) (= (time:duration-ns (time:time-elapsed t0)) (time:duration-ns (time:time-from t0 t1))) (time:time= (time:time-add t1 (time:time-from t1 t0)) t0))\n", i)
 	}
 	return b.String()
